@@ -34,6 +34,10 @@ deriving DecidableEq, Repr
 structure ClassDef where
   supers : List Name
   slots : List SlotDef
+  /-- `(:default-initargs k v …)`: the class's own default initargs (slip consults those of the
+      class being instantiated only; the harness does not constrain instances of a class below one
+      that has default initargs) -/
+  defaults : List (Name × Val) := []
 deriving DecidableEq, Repr
 
 structure Entry where
@@ -232,13 +236,21 @@ def validArg (sds : List SlotDef) (k : Name) : Bool := sds.any (fun sd => sd.ini
 def build (sds : List SlotDef) (args : List (Name × Val)) : Inst :=
   (applyArgs sds args (blank sds)).map (formCell sds)
 
-/-- `(make-instance c k1 v1 …)` -/
+/-- the default initargs of the class being instantiated -/
+def defaultsOf (s : State) (c : Name) : List (Name × Val) :=
+  match defOf s c with
+  | some d => d.defaults
+  | none => []
+
+/-- `(make-instance c k1 v1 …)`: the supplied initargs must be declared; the class's default
+    initargs are offered after them (a slot an earlier pair filled is not filled again), then the
+    initforms -/
 def makeInstance (s : State) (c : Name) (args : List (Name × Val)) : Except Err Inst :=
   match precOf s c with
   | none => .error .notReady
   | some p =>
     let sds := slotDefsOf s p
-    if args.all (fun a => validArg sds a.1) then .ok (build sds args) else .error .badInitarg
+    if args.all (fun a => validArg sds a.1) then .ok (build sds (args ++ defaultsOf s c)) else .error .badInitarg
 
 /-- two different supplied initargs reach the same slot: the property does not say which wins
     (slip signals an error, Common Lisp takes the leftmost); the harness accepts either -/
